@@ -97,7 +97,7 @@ CHECKS = {
         "thorough": [
             {"pkg": "v2", "entries": ["VerifC09Long"], "params": {"N": 3}},
             {"pkg": "v2", "entries": ["VerifC09Render"], "params": {"N": 3, "FAMS": 1}},
-            {"pkg": "v2", "entries": ["VerifC09Render"], "params": {"N": 2, "KEYS": 6}},
+            {"pkg": "v2", "entries": ["VerifC09Render"], "params": {"N": 2, "KEYS": 4}},
             {"pkg": "v2", "entries": ["VerifC09Refuse"], "params": {}},
         ],
         "covers": ["c09.render", "c09.refuse", "c09.long"],
@@ -165,12 +165,14 @@ CHECKS = {
         "quick": [
             {"pkg": "v2", "entries": ["VerifC08Hunk"], "params": {"N": 2, "RM": 2, "AD": 1}},
             {"pkg": "v2", "entries": ["VerifC08Keyed"], "params": {"N": 2, "IDKINDS": 1}},
+            {"pkg": "v2", "entries": ["VerifC08Keyed"], "params": {"N": 3, "IDKINDS": 0, "MIXED": 1}},
             {"pkg": "v2", "entries": ["VerifC08Diff"], "params": {"N": 2}},
             {"pkg": "v2", "entries": ["VerifC08Members"], "params": {"N": 1}},
         ],
         "thorough": [
             {"pkg": "v2", "entries": ["VerifC08Hunk"], "params": {"N": 3, "RM": 2, "AD": 2}},
             {"pkg": "v2", "entries": ["VerifC08Keyed"], "params": {"N": 3}},
+            {"pkg": "v2", "entries": ["VerifC08Keyed"], "params": {"N": 3, "IDKINDS": 1, "MIXED": 1}},
             {"pkg": "v2", "entries": ["VerifC08Diff"], "params": {"N": 2}},
             {"pkg": "v2", "entries": ["VerifC08Members"], "params": {"N": 1}},
         ],
@@ -181,21 +183,25 @@ CHECKS = {
         "quick": [
             {"pkg": "v2", "entries": ["VerifC06Flat"], "params": {"N": 3, "M": 2, "WRAPS": 2}},
             {"pkg": "v2", "entries": ["VerifC06Recurse"], "params": {"N": 3}},
+            {"pkg": "v2", "entries": ["VerifC06Flat"], "params": {"N": 4, "M": 4, "EXACT": 1, "CONCA": 1, "WRAPS": 2}},
         ],
         "thorough": [
             {"pkg": "v2", "entries": ["VerifC06Flat"], "params": {"N": 3, "M": 3, "WRAPS": 4}},
             {"pkg": "v2", "entries": ["VerifC06Flat"], "params": {"N": 4, "M": 2, "WRAPS": 1}},
             {"pkg": "v2", "entries": ["VerifC06Flat"], "params": {"N": 2, "M": 4, "WRAPS": 1}},
             {"pkg": "v2", "entries": ["VerifC06Recurse"], "params": {"N": 4}},
+            {"pkg": "v2", "entries": ["VerifC06Flat"], "params": {"N": 4, "M": 4, "EXACT": 1, "WRAPS": 1}},
+            {"pkg": "v2", "entries": ["VerifC06Flat"], "params": {"N": 5, "M": 4, "EXACT": 1, "CONCA": 1, "WRAPS": 1}},
         ],
         "covers": ["c06.flat.root", "c06.flat.key", "c06.recurse"],
-        "outside": "arrays longer than the bounds; elements other than numbers in the minimality leg; FNV collisions",
+        "outside": "arrays longer than the bounds (4x4 fully symbolic in the thorough tier; in the quick tier 4x4 with a drawn from four fixed repeat patterns and b symbolic); elements other than numbers in the minimality leg; FNV collisions",
     },
     "C07": {
         "quick": [
             {"pkg": "v2", "entries": ["VerifC07List", "VerifC07Obj", "VerifC07Set", "VerifC07Merge"], "params": {"N": 2}},
             {"pkg": "v2", "entries": ["VerifC07Set"], "params": {"N": 1, "NESTED": 1}},
             {"pkg": "v2", "entries": ["VerifC07Keyed"], "params": {"N": 1, "M": 1}},
+            {"pkg": "v2", "entries": ["VerifC07MergeNulls"], "params": {}},
         ],
         "thorough": [
             {"pkg": "v2", "entries": ["VerifC07List"], "params": {"N": 3}},
@@ -204,8 +210,9 @@ CHECKS = {
             {"pkg": "v2", "entries": ["VerifC07Set"], "params": {"N": 1, "NESTED": 1}},
             {"pkg": "v2", "entries": ["VerifC07Keyed"], "params": {"N": 2, "M": 1}},
             {"pkg": "v2", "entries": ["VerifC07Keyed"], "params": {"N": 1, "M": 2}},
+            {"pkg": "v2", "entries": ["VerifC07MergeNulls"], "params": {}},
         ],
-        "covers": ["c07.list.root", "c07.list.key", "c07.obj", "c07.set.set", "c07.set.multiset", "c07.merge", "c07.keyed"],
+        "covers": ["c07.list.root", "c07.list.key", "c07.obj", "c07.set.set", "c07.set.multiset", "c07.merge", "c07.keyed", "c07.mergenulls"],
         "outside": "arrays longer than N; FNV collisions",
     },
     "C13": {
